@@ -224,7 +224,11 @@ pub trait CKKSMaintainOpsDefault {
         D: DataRef,
     {
         let size = ct.effective_k().div_ceil(ct.base2k().as_usize());
-        let mut compact = CKKSCiphertext::alloc(ct.n(), (size * ct.base2k().as_usize()).into(), ct.base2k());
+        // Same rank as the source: the limb-major prefix copied below is laid out for `rank + 1` columns.
+        let mut compact = CKKSCiphertext::from_inner(
+            GLWE::alloc(ct.n(), ct.base2k(), (size * ct.base2k().as_usize()).into(), ct.rank()),
+            CKKSMeta::default(),
+        );
         compact.meta = ct.meta();
         let dst_len = compact.data().data.len();
         compact.data_mut().data[..].copy_from_slice(&ct.data().data.as_ref()[..dst_len]);
